@@ -83,6 +83,22 @@ def check_L22(ctx, rep, scope):
                         alias[bb['id']] = r[1]
         # loops over delta.map (after the merge) that insert into delta.<f>
         completed = set()
+        order = {id(x): i for i, (x, _) in enumerate(walk(b['tree']))}
+        # events on the delta's per-key map, in source order: emptied (drain / mem::take) or (re)filled (assignment)
+        events = []
+        for x, _ in walk(b['tree']):
+            if x.get('k') == 'assign':
+                r = _field_of(x['l'], {delta_id})
+                if r and r[1] and 'reverse' not in r[1]:
+                    events.append((order[id(x)], 'filled', r[1]))
+            if x.get('k') == 'mcall' and x['m'] == 'drain':
+                r = _field_of(x['r'], {delta_id})
+                if r and r[1] and 'reverse' not in r[1]:
+                    events.append((order[id(x)], 'emptied', r[1]))
+            if x.get('k') == 'call' and callee(x) and cname(callee(x)).endswith(('mem::take', 'mem::replace')) and x.get('a'):
+                r = _field_of(x['a'][0], {delta_id})
+                if r and r[1] and 'reverse' not in r[1]:
+                    events.append((order[id(x)], 'emptied', r[1]))
         for x, parents in walk(b['tree']):
             if x.get('k') != 'match' or x.get('src') != 'for':
                 continue
@@ -90,6 +106,12 @@ def check_L22(ctx, rep, scope):
             it = scr['a'][0] if scr.get('k') == 'call' and scr.get('a') else scr
             r = _field_of(it, {delta_id})
             if not r or r[1] is None or 'reverse' in r[1]:
+                continue
+            # the loop has to walk the per-key deltas of THIS merge: the last thing that happened to the map before the loop is not
+            # that it was emptied
+            before = [e for e in events if e[0] < order[id(x)] and e[2] == r[1]]
+            if before and max(before)[1] == 'emptied':
+                rep.inst('L22', '%s: a loop over the delta\'s `%s` runs while the map is drained (it is refilled only afterwards)' % (path, r[1]))
                 continue
             for y, _ in walk(x['arms'][0]['b']):
                 if y.get('k') == 'mcall' and y['m'] in ('insert', 'push', 'extend'):
